@@ -1,6 +1,7 @@
 package props
 
 import (
+	"sync"
 	"fmt"
 	"sort"
 	"strings"
@@ -51,7 +52,7 @@ func c16Text(rules []C08Rule, tagBase int64) (string, map[string]int64) {
 		if r.NoSal {
 			sal = ""
 		}
-		fmt.Fprintf(&b, "rule %q %q%s\nbegin\n  S(@name)\n  gate(@name)\n  E(@name)\n  return %d\nend\n", r.Name, r.desc(), sal, tag)
+		fmt.Fprintf(&b, "rule %q %q%s\nbegin\n  S(@name)\n  info(@name, @sal, @desc)\n  gate(@name)\n  E(@name)\n  return %d\nend\n", r.Name, r.desc(), sal, tag)
 	}
 	return b.String(), tags
 }
@@ -61,7 +62,7 @@ var c16BadTexts = []string{"rule \"n0\" begin", "rule \"n1\" \"d\" salience 1 be
 func init() {
 	register(&Prop{
 		ID:   "C16",
-		Rule: "operation histories of up to 20 steps on one pool (sizes (1,2),(1,3),(2,3),(2,4),(3,6), in 2% of the cases (64,70),(1,66),(33,34); in 2% of the cases a set of 130-260 rules replaced as a whole by one incremental update): UpdatePooledRules, UpdatePooledRulesIncremental, RemoveRules (present, absent, repeated names, empty list), ClearPoolRules, SetExecModel (valid and invalid), re-submission of the byte-identical text of the last full or last incremental update, invalid texts for both update kinds, interleaved with single executions and with probe-all executions (max requests parked simultaneously on Hold gates, which forces one request onto every instance, initial and additional); oracle = model (rule map, execution model, cleared flag): after every step IsExist / GetRulesNumber / GetRuleSalience / GetRuleDesc / GetExecModel agree with the model, every execution and every probe result equals the model's rule set with the current tags (validated against the reference scheduling model of the configured execution model), a cleared pool runs nothing and returns an empty map, updates after clear bring it back, no step panics; a second pool built from the same initial text is unaffected by the whole history. Non-trivial: the history contains clear -> incremental, or remove -> incremental, or an update followed by a probe-all on a pool with max >= 3; distinct by case hash",
+		Rule: "operation histories of up to 20 steps on one pool (sizes (1,2),(1,3),(2,3),(2,4),(3,6), in 2% of the cases (64,70),(1,66),(33,34); in 2% of the cases a set of 130-260 rules replaced as a whole by one incremental update): UpdatePooledRules, UpdatePooledRulesIncremental, RemoveRules (present, absent, repeated names, empty list), ClearPoolRules, SetExecModel (valid and invalid), re-submission of the byte-identical text of the last full or last incremental update, invalid texts for both update kinds, interleaved with single executions and with probe-all executions (max requests parked simultaneously on Hold gates, which forces one request onto every instance, initial and additional); oracle = model (rule map, execution model, cleared flag): after every step IsExist / GetRulesNumber / GetRuleSalience / GetRuleDesc / GetExecModel agree with the model, every execution and every probe result equals the model's rule set with the current tags, every executing rule reports the @sal and @desc the model holds for it (validated against the reference scheduling model of the configured execution model), a cleared pool runs nothing and returns an empty map, updates after clear bring it back, no step panics; a second pool built from the same initial text is unaffected by the whole history. Non-trivial: the history contains clear -> incremental, or remove -> incremental, or an update followed by a probe-all on a pool with max >= 3; distinct by case hash",
 		New:  func() interface{} { return &C16Case{} },
 		Gen: func(t *rapid.T) interface{} {
 			c := &C16Case{}
@@ -163,13 +164,28 @@ func checkC16(ci interface{}, x *Ctx) {
 	c := ci.(*C16Case)
 	env := newSchedEnv()
 	text0, tags0 := c16Text(c.Init, 0)
-	p, err := engine.NewGenginePool(c.PoolMin, c.PoolMax, c.EM, text0, env.apis())
+	// every rule body reports the salience and description it was compiled with
+	type c16Info struct {
+		name, desc string
+		sal        int64
+	}
+	var infoMu sync.Mutex
+	var infos []c16Info
+	apis := env.apis()
+	apis["info"] = func(n string, sal int64, desc string) {
+		infoMu.Lock()
+		infos = append(infos, c16Info{n, desc, sal})
+		infoMu.Unlock()
+	}
+	p, err := engine.NewGenginePool(c.PoolMin, c.PoolMax, c.EM, text0, apis)
 	if err != nil {
 		x.Violation("setup", "NewGenginePool rejected a valid text: %v", err)
 		return
 	}
 	// a second pool built from the very same text: nothing done to the first may show in it
-	twin, terr := engine.NewGenginePool(c.PoolMin, c.PoolMax, c.EM, text0, newSchedEnv().apis()) // its own observers
+	twinApis := newSchedEnv().apis() // its own observers
+	twinApis["info"] = func(n string, sal int64, desc string) {}
+	twin, terr := engine.NewGenginePool(c.PoolMin, c.PoolMax, c.EM, text0, twinApis)
 	if terr != nil {
 		x.Violation("setup", "NewGenginePool rejected a valid text: %v", terr)
 		return
@@ -233,6 +249,24 @@ func checkC16(ci interface{}, x *Ctx) {
 	model := map[string]c08Entry{}
 	for _, r := range c.Init {
 		model[r.Name] = c08Entry{r.Sal, r.desc(), tags0[r.Name]}
+	}
+	// checkInfos compares what the rule bodies reported since the last call with the model
+	checkInfos := func(step int) bool {
+		infoMu.Lock()
+		recs := infos
+		infos = nil
+		infoMu.Unlock()
+		for _, r := range recs {
+			e, ok := model[r.name]
+			if !ok {
+				continue // a rule outside the denoted set that runs is reported by the scheduling oracle
+			}
+			if r.sal != e.sal || r.desc != e.desc {
+				x.Violation("meta:executing-rule", "step %d: rule %q reports @sal=%d @desc=%q while it executes, the pool's queries and the model say %d and %q", step, r.name, r.sal, truncate(r.desc, 80), e.sal, truncate(e.desc, 80))
+				return false
+			}
+		}
+		return true
 	}
 	em := c.EM
 	cleared := false
@@ -461,7 +495,7 @@ func checkC16(ci interface{}, x *Ctx) {
 			for _, v := range models.Validate(in) {
 				x.Violation("exec:"+v.Kind, "step %d: execution (em=%d, cleared=%v) disagrees with the denoted set %v: %s\nhistory %s", step, em, cleared, names, v.Msg, hist(step))
 			}
-			if x.Failed() {
+			if x.Failed() || !checkInfos(step) {
 				return
 			}
 			if cleared {
@@ -498,6 +532,9 @@ func checkC16(ci interface{}, x *Ctx) {
 				x.Violation("probe-extra-rules", "step %d: a probe request returned %v, the denoted set is %v\nhistory %s", step, sortedMap(r.Map), names, hist(step))
 				return
 			}
+		}
+		if !checkInfos(step) {
+			return
 		}
 	}
 	_ = obs.Free
